@@ -403,6 +403,12 @@ def build_item(repo, blk, cache):
             if aopt:
                 # a skipped optional hint: obligations of this function that fail may fail for want of the hint (undecided-class)
                 rewrites.append({"id": "skipped-optional-anchor", "anchor": anchor}); skipped_opt.append(anchor); continue
+            # A lost anchor of PURE proof text (no `// [Cxx]` tag, no OBLIGATION marker in it) is skipped like an optional one: the
+            # function is then verified without that hint; if it verifies, that is a proof of its contract for the code as it stands, if
+            # it fails, the failure is undecided-class (item marked `adapted`).  Ghost text that carries a property tag is a clause of
+            # the property: dropping it would drop an obligation, so there the unit still stops.
+            if not TAG_RE.search(atext) and "OBLIGATION" not in atext:
+                rewrites.append({"id": "skipped-lost-anchor", "anchor": anchor}); skipped_opt.append(anchor); continue
             raise ToolError("LOST-ANCHOR //@%s %r #%d not found in %s :: %s" % (where, anchor, k, blk.file, blk.path))
         if where == "before":
             ls = text.rfind("\n", 0, p) + 1
